@@ -433,6 +433,31 @@ func runC20(c *core.Case) {
 	}
 
 	var recent []string
+	// Nobody holds the database's halt lock: a usable, position-extending file
+	// sent with lock ids that no holder can have (0, -1, 1) must be refused.
+	if isPrimary && target.Store.DB("db") != nil && target.Store.DB("db").VerifHaltLockID() == 0 {
+		body := forgeLTX(cl.Nodes[0], curImg(), 0x7777)
+		for _, lid := range []string{"0", "-1", "1", "00", "+0"} {
+			before := stateDigest(target)
+			st, err := send(c20Req{Method: "POST", Path: "/tx", Query: "name=db&lockID=" + lid, NodeID: "00000000DEADBEEF", Body: body, BodyKind: "valid", H2: c.Rng.IntN(2) == 0})
+			c.Count("requests", 1)
+			c.Count("ep_tx", 1)
+			c.Count("tx_without_any_halt_lock", 1)
+			detail := map[string]any{"role": role, "request": "POST /tx?lockID=" + lid + " with a usable body while nobody holds the halt lock"}
+			if err != nil {
+				c.Violate("C20/no-http-response/POST /tx", fmt.Sprintf("/tx with lock id %q got no response: %v", lid, err), detail)
+				return
+			}
+			if healthViolations(c, target.Node, "tx without a halt lock", detail) {
+				return
+			}
+			if after := stateDigest(target); after != before || st == 200 {
+				c.Violate("C20/invalid-request-changed-state/POST /tx", fmt.Sprintf("POST /tx?lockID=%s with a usable body while nobody holds the database's halt lock was answered %d and changed databases/positions/logs", lid, st), map[string]any{"digest_before": before, "digest_after": after})
+				return
+			}
+			c.Count("invalid_requests_digest_checked", 1)
+		}
+	}
 	// A legitimate halt-lock holder sending unusable transaction files: each must
 	// be rejected without any side effect (the files pass the holder check).
 	if isPrimary {
@@ -451,17 +476,63 @@ func runC20(c *core.Case) {
 			// well-formed in every respect (file checksum included) except that
 			// the database it claims to produce is not the one its pages produce
 			wrongPost := forgeLTXPost(cl.Nodes[0], img, 0x7777, 0x0123456789abcdef)
+			// well-formed, extends the position, announces the checksum its one page
+			// produces - in another page size than the database's
+			otherPS := map[uint32]uint32{512: 1024, 1024: 4096, 4096: 1024}[img.PageSize]
+			var otherPage bytes.Buffer
+			{
+				pos := cl.Nodes[0].Store.DB("db").Pos()
+				np := bytes.Repeat([]byte{0xA7}, int(otherPS))
+				enc := ltx.NewEncoder(&otherPage)
+				_ = enc.EncodeHeader(ltx.Header{Version: 1, PageSize: otherPS, Commit: img.PageN + 1, MinTXID: pos.TXID + 1, MaxTXID: pos.TXID + 1,
+					Timestamp: time.Now().UnixMilli(), PreApplyChecksum: pos.PostApplyChecksum, NodeID: 0x7777})
+				_ = enc.EncodePage(ltx.PageHeader{Pgno: img.PageN + 1}, np)
+				enc.SetPostApplyChecksum(ltx.ChecksumFlag | (pos.PostApplyChecksum ^ ltx.ChecksumPage(img.PageN+1, np)))
+				_ = enc.Close()
+			}
+			// a correct file in every respect that spans two transaction IDs: the
+			// log holds one file per transaction
+			var twoTx bytes.Buffer
+			{
+				pos := cl.Nodes[0].Store.DB("db").Pos()
+				np := bytes.Repeat([]byte{0xB3}, int(img.PageSize))
+				ni := img.Clone()
+				ni.Set(2, np)
+				enc := ltx.NewEncoder(&twoTx)
+				_ = enc.EncodeHeader(ltx.Header{Version: 1, PageSize: img.PageSize, Commit: img.PageN, MinTXID: pos.TXID + 1, MaxTXID: pos.TXID + 2,
+					Timestamp: time.Now().UnixMilli(), PreApplyChecksum: pos.PostApplyChecksum, NodeID: 0x7777})
+				_ = enc.EncodePage(ltx.PageHeader{Pgno: 2}, np)
+				enc.SetPostApplyChecksum(ltx.ChecksumFlag | ltx.Checksum(ni.Checksum()))
+				_ = enc.Close()
+			}
+			// a file that SHRINKS the database and announces a wrong checksum
+			var shrinkWrong bytes.Buffer
+			if img.PageN >= 3 {
+				pos := cl.Nodes[0].Store.DB("db").Pos()
+				np := bytes.Repeat([]byte{0xC9}, int(img.PageSize))
+				enc := ltx.NewEncoder(&shrinkWrong)
+				_ = enc.EncodeHeader(ltx.Header{Version: 1, PageSize: img.PageSize, Commit: img.PageN - 1, MinTXID: pos.TXID + 1, MaxTXID: pos.TXID + 1,
+					Timestamp: time.Now().UnixMilli(), PreApplyChecksum: pos.PostApplyChecksum, NodeID: 0x7777})
+				_ = enc.EncodePage(ltx.PageHeader{Pgno: 2}, np)
+				enc.SetPostApplyChecksum(ltx.ChecksumFlag | 0x0fedcba987654321)
+				_ = enc.Close()
+			}
 			hostile := map[string][]byte{
-				"next-tx-wrong-postapply-checksum": wrongPost,
-				"snapshot-truncated-after-header":  snap[:100],
-				"snapshot-truncated-mid-page":      snap[:100+int(ps)/2],
-				"snapshot-truncated-mid-trailer":   snap[:len(snap)-5],
-				"snapshot-corrupt-page":            corrupt,
-				"snapshot-bad-file-checksum":       badTrailer,
-				"next-tx-corrupt-body":             goodCorrupt,
-				"next-tx-truncated":                good[:len(good)-9],
-				"empty":                            {},
-				"garbage":                          bytes.Repeat([]byte{0x5C}, 333),
+				"next-two-transactions-in-one-file": twoTx.Bytes(),
+				"next-tx-wrong-postapply-checksum":  wrongPost,
+				"next-tx-other-page-size":           otherPage.Bytes(),
+				"snapshot-truncated-after-header":   snap[:100],
+				"snapshot-truncated-mid-page":       snap[:100+int(ps)/2],
+				"snapshot-truncated-mid-trailer":    snap[:len(snap)-5],
+				"snapshot-corrupt-page":             corrupt,
+				"snapshot-bad-file-checksum":        badTrailer,
+				"next-tx-corrupt-body":              goodCorrupt,
+				"next-tx-truncated":                 good[:len(good)-9],
+				"empty":                             {},
+				"garbage":                           bytes.Repeat([]byte{0x5C}, 333),
+			}
+			if shrinkWrong.Len() > 0 {
+				hostile["next-tx-shrinks-with-wrong-postapply-checksum"] = shrinkWrong.Bytes()
 			}
 			for kind, body := range hostile {
 				before := stateDigest(target)
